@@ -46,7 +46,8 @@ Definition cm_reply_rec (c : crec) (C : N) (x : cm_res) : crec :=
 Definition told_guard (c : crec) (t : told_res) : bool :=
   match t with
   | TOk => negb (cn c FPcOk =? 0) || negb (cn c F1pcTs =? 0) ||
-           (async_kept c && fb c FHasm && subset (c_lm c) (c_pwok c) && pw_closed c)
+           (async_kept c && fb c FHasm && subset (c_lm c) (c_pwok c) && pw_closed c) ||
+           (negb (fb c FHasm) && (cn c FPcSent =? 0) && (cn c FPwSent <=? cn c FPwRep) && negb (fb c FPwErr))
   | TErr => neg_ok c && (negb (cp_active c) || err_ok c) && (cn c F1pcTs =? 0)
   | TUndet => (cn c FPcRep <? cn c FPcSent) || (commit_point_pw c && (cn c FPwRep <? cn c FPwSent))
   end.
@@ -106,7 +107,7 @@ Definition vstep (v : view) (e : event) (v' : view) : Prop :=
   | ERbDeliver r T ks x => v' = vdlv v (ERbReply r T ks x)
   | EPlSend r T p f ks =>
       let c := vgetc v T in
-      v' = vcl (vsent v e) T (if fb c FPlAny then c else setn (setn c FPlAny 1) FPlPrim p)
+      v' = vcl (vsent v e) T (setn (setn c FPlAny 1) FPlPrim p)
   | EPlDeliver r T f ks x => v' = vdlv v (EPlReply r T f ks x)
   | EPrSend _ _ _ _ => v' = vsent v e
   | EPrDeliver r T f ks x => v' = vdlv v (EPrReply r T f ks x)
